@@ -30,7 +30,7 @@ def handle (line : String) : String :=
   | "sel" :: _ => handleSel ws
   | "mic" :: _ => handleMic ws
   | "cell" :: _ | "cellops" :: _ => handleCell ws
-  | "nbl" :: _ | "nbs" :: _ => handleNb ws
+  | "nbl" :: _ | "nbs" :: _ | "vox" :: _ => handleNb ws
   | "ang" :: _ | "dih" :: _ | "tors" :: _ => handleAng ws
   | "sasa" :: _ => handleSasa ws
   | "qcp" :: _ | "qrot" :: _ => handleQcp ws
